@@ -247,7 +247,8 @@ func checkC18(ctx *Ctx) {
 	}
 	quietLogs()
 	for i := 0; i < ctx.N(2, 12); i++ {
-		if ctx.Mine(i) {
+		if ctx.Mine(i) && !inRaceLane() { // the 48 MB burst is too slow under the race detector to decide anything
+
 			ctx.SetCurrent(fmt.Sprintf("C18 stalled-subscriber burst %d", i))
 			c18Stalled(ctx, i)
 		}
